@@ -607,8 +607,22 @@ func (s *server) postPre(body []byte, pre string) response {
 	req := httptest.NewRequest(method, "/upload", bytes.NewReader(body))
 	req.Header.Set("Content-Type", ctype)
 	rec := httptest.NewRecorder()
-	s.mux.ServeHTTP(rec, req)
+	if p := serveRecover(s.mux, rec, req); p != "" {
+		// net/http would recover the panic and drop the connection: the client sees a failed upload.
+		// The scenario goes on, so that what the panic left behind is judged with the case.
+		return response{status: 500, errTag: "panic:" + hx.HexS(p), id: "-"}
+	}
 	return decodeResponse(rec.Code, rec.Body.Bytes())
+}
+
+func serveRecover(h http.Handler, w http.ResponseWriter, r *http.Request) (panicked string) {
+	defer func() {
+		if e := recover(); e != nil {
+			panicked = fmt.Sprint(e)
+		}
+	}()
+	h.ServeHTTP(w, r)
+	return ""
 }
 
 // postCut sends the cut body over a real connection: the request announces the full length, the
@@ -1512,6 +1526,61 @@ func main() {
 			hit := 248*j/L + 1 // the flush boundary 248*j lies in the labels of record number `hit`
 			for n := hit - 1; n <= hit+1; n++ {
 				flushCase(c, n)
+			}
+		}
+	}
+
+	// 4c. `go test -count=2` output right after a mid-record flush: n distinct one-line benchmarks, then
+	// one benchmark on 2-3 consecutive lines (identical labels, coalesced into one record), where the
+	// 248-label flush falls inside the first of the repeated lines' record. A valid upload: it must succeed
+	// with every line retrievable.
+	repeatCase := func(c flushCfg, n, reps int) {
+		uid := g.uid()
+		var b strings.Builder
+		fmt.Fprintf(&b, "uid: %s\n", uid)
+		for e := 0; e < c.extra; e++ {
+			fmt.Fprintf(&b, "extra%d: v%d\n", e, e)
+		}
+		for j := 0; j < n; j++ {
+			fmt.Fprintf(&b, "BenchmarkR%d 1 %d ns/op\n", j, j)
+		}
+		for j := 0; j < reps; j++ {
+			fmt.Fprintf(&b, "BenchmarkTwice 1 %d ns/op\n", 100+j)
+		}
+		if g.r.Bool() {
+			b.WriteString("BenchmarkTail 1 1 ns/op\n")
+		}
+		rq := reqSpec{cutAt: -1, uid: uid, parts: []partSpec{{form: "file", fname: c.fname, content: b.String()}}}
+		if c.fname == "" {
+			rq.parts[0].fnMode = 2
+		}
+		sc := &scenario{user: c.user, store: "local", tags: []string{"repeat"}}
+		sc.reqs = append(sc.reqs, goodReq(g.r, g.uid(), 1), rq, goodReq(g.r, g.uid(), 1))
+		g.emit(sc)
+	}
+	for ci, c := range []flushCfg{{"user", "a.txt", 0}, {"", "a.txt", 0}, {"user", "", 1}, {"", "", 0}, {"user", "a.txt", 2}, {"", "a.txt", 3}} {
+		L := 3 + 1 + c.extra + 1
+		if c.user != "" {
+			L++
+		}
+		if c.fname != "" {
+			L++
+		}
+		if thorough {
+			for _, rng := range [][2]int{{35, 50}, {80, 90}, {120, 128}} {
+				for n := rng[0]; n <= rng[1]; n++ {
+					repeatCase(c, n, 2+(n+ci)%2)
+				}
+			}
+			continue
+		}
+		if ci >= 4 {
+			continue
+		}
+		for j := 1; j <= 3; j++ {
+			hit := 248 * j / L // record number `hit` (0-based) is the one the flush boundary 248*j falls into
+			for n := hit - 1; n <= hit+1; n++ {
+				repeatCase(c, n, 2+(n+j)%2)
 			}
 		}
 	}
